@@ -3,7 +3,8 @@ import RisorModel.C17.Model
 /-!
 Line-protocol front end of the C17 model.
 
-  `rt <nodes> <table>`  →  `ok <wf: WF p ∧ WF (p.mapStr sanitize)> <named> <utf8> <json> <reload> <nodes'> <table'> <viewEq> <stable> <spec>`
+  `rt <nodes> <table>`  →  `ok <wf: WF p ∧ WF (p.mapStr sanitize)> <named> <utf8> <json> <reload> <nodes'> <table'> <viewEq> <stable> <spec>
+                             <compileNames> <hasMainFn> <framesFit p> <framesFit of the reloaded program | ->`
 
   `sess <ops> (<nodes> <table>)*`  →  `ok <guards> <ncodes nblobs> <result>*`   (a history of calls, see "sessions" below)
   `sanitize <hex>`  →  `<hex of sanitize> <validStr>`
@@ -271,7 +272,7 @@ def errName : Err → String
 
 `<ops>` is a space-separated list of `m<i>` (MarshalCode of code object `i` of the store) and
 `u<j>` (UnmarshalCode of retained byte string `j`); the store starts with the given programs
-and no byte strings.  `<guards>`: per program `<named><utf8>`.  One `<result>` per operation,
+and no byte strings.  `<guards>`: per program `<named><utf8><compileNames><hasMainFn>`.  One `<result>` per operation,
 what `Model.run` says the call returned (Props: `session_results_independent` — it is what the
 same call returns alone, whatever else the session does):
   `b <json>` | `c <nodes>|<table>` | `e <error>` | `x` (operand does not exist). -/
@@ -306,16 +307,19 @@ def handle : List String → String
       let w := marshal p
       let head := "ok\t" ++ b01 (decide (WF p) && decide (WF (p.mapStr sanitize))) ++ "\t" ++ b01 (NamedConsistent p) ++ "\t"
         ++ b01 (ValidUtf8Consts p) ++ "\t" ++ jState w
+      let names := "\t" ++ b01 (CompileNames p) ++ "\t" ++ b01 (HasMainFn p) ++ "\t" ++ b01 (FramesFit p) ++ "\t"
       match unmarshal w with
-      | .error e => head ++ "\terr:" ++ errName e ++ "\t-\t-\t0\t0\t0"
+      | .error e => head ++ "\terr:" ++ errName e ++ "\t-\t-\t0\t0\t0" ++ names ++ "-"
       | .ok q =>
         head ++ "\tok\t" ++ showNodes q.nodes ++ "\t" ++ showTable q.table ++ "\t"
           ++ b01 (execView q == execView p) ++ "\t" ++ b01 (State.beq (marshal q) w) ++ "\t" ++ b01 (specOK p)
+          ++ names ++ b01 (FramesFit q)
   | "sess" :: ops :: progs =>
     match parseOps ops, parseProgs progs with
     | some os, some ps =>
       let out := run { codes := ps, blobs := [] } os
-      let guards := " ".intercalate (ps.map fun p => b01 (NamedConsistent p) ++ b01 (ValidUtf8Consts p))
+      let guards := " ".intercalate (ps.map fun p =>
+        b01 (NamedConsistent p) ++ b01 (ValidUtf8Consts p) ++ b01 (CompileNames p) ++ b01 (HasMainFn p))
       "ok\t" ++ guards ++ "\t" ++ toString out.1.codes.length ++ " " ++ toString out.1.blobs.length
         ++ String.join (out.2.map fun r => "\t" ++ showRes r)
     | _, _ => "error\tbad-request"
